@@ -9,6 +9,8 @@
     iam seg <i>                   steps of call i up to its next yield point (gMiss, gFetched,
                                   mCache) or its return (at least one step)   -> <pc>
     iam tick <n> | iam gc                                                     -> ok
+    iam quiet                     was the schedule since `reset` quiet (side condition of
+                                  Props.C17.lookup_after_ack_partial, `quietRunB`)?  -> 1 | 0
     iam dump                                                                  -> file/cache image
     iam spec <root acct> <accts|-> <op>…      (stateless) answers of the plain map, in order
                                               (listings are shown as `accts=-`; judged by `lin`)
@@ -21,6 +23,7 @@
     <rec>  <inv>|<ret>|<op>|<res | pending | found=<secret|~>=<0/1>=<role|~>=<uid|~>=<gid|~>>
 -/
 import Vgw.Model.IAM
+import Vgw.Model.IAMQuiet
 import Vgw.Spec.IAM
 namespace Vgw.Driver.IAM
 open Vgw Vgw.Model.IAM
@@ -30,6 +33,9 @@ structure DState where
   v : Variant := {}
   cfg : Cfg := { root := { access := [], secret := [], role := .admin }, ttl := 0 }
   σ : State := {}
+  /-- the schedule executed since the last reset satisfies the side condition of the `_partial`
+  theorems (`quietRunB`) -/
+  quiet : Bool := true
 
 def parseRole : String → Option Role
   | "admin" => some .admin | "userplus" => some .userplus | "user" => some .user | _ => none
@@ -111,15 +117,16 @@ def isYield : PC → Bool
   | _ => false
 
 /-- steps of call i up to the next yield point; a blocked call is reported -/
-def seg (v : Variant) (cfg : Cfg) (σ : State) (i : Nat) : Nat → State × Bool
-  | 0 => (σ, false)
+def seg (v : Variant) (cfg : Cfg) (σ : State) (i : Nat) (q : Bool) : Nat → State × Bool × Bool
+  | 0 => (σ, false, q)
   | n + 1 =>
+    let q' := q && quietStepB v σ (.step i)
     let σ' := stepAt v cfg σ i
     match σ.calls[i]?, σ'.calls[i]? with
     | some c, some c' =>
-      if c.pc = c'.pc then (σ, false)            -- blocked (or done)
-      else if isYield c'.pc then (σ', true) else seg v cfg σ' i n
-    | _, _ => (σ, false)
+      if c.pc = c'.pc then (σ, false, q)            -- blocked (or done)
+      else if isYield c'.pc then (σ', true, q') else seg v cfg σ' i q' n
+    | _, _ => (σ, false, q)
 
 def showEntry (e : Entry) : String := s!"{showAcct e.val}@{e.exp}"
 
@@ -127,14 +134,15 @@ def handle (d : DState) : List String → DState × Option String
   | ["reset", c, ci, inv, ttl, now, root, accts] =>
     match parseBool c, parseBool ci, parseBool inv, ttl.toNat?, now.toNat?, parseAcct root, parseAccts accts with
     | some c, some ci, some inv, some ttl, some now, some root, some accts =>
-      ({ v := { cache := c, copyIds := ci, invalidate := inv }, cfg := { root := root, ttl := ttl }, σ := init accts now }, some "ok")
+      ({ v := { cache := c, copyIds := ci, invalidate := inv }, cfg := { root := root, ttl := ttl }, σ := init accts now, quiet := true }, some "ok")
     | _, _, _, _, _, _, _ => (d, none)
   | ["call", op] =>
     match parseOp op with
     | some op =>
       let n := d.σ.calls.length
       let σ' := call d.v d.cfg d.σ op
-      ({ d with σ := σ' }, some (match σ'.result n with | some r => showRes r | none => "stuck:" ++ showPc σ' n))
+      let q := quietRunB d.v d.cfg d.σ (.invoke op :: List.replicate fuel (.step n))   -- = the steps of `call` (Lemmas.IAMSeq.call_eq_run)
+      ({ d with σ := σ', quiet := d.quiet && q }, some (match σ'.result n with | some r => showRes r | none => "stuck:" ++ showPc σ' n))
     | none => (d, none)
   | ["invoke", op] =>
     match parseOp op with
@@ -142,19 +150,22 @@ def handle (d : DState) : List String → DState × Option String
     | none => (d, none)
   | ["step", i] =>
     match i.toNat? with
-    | some i => let σ' := stepAt d.v d.cfg d.σ i; ({ d with σ := σ' }, some (showPc σ' i))
+    | some i =>
+      let σ' := stepAt d.v d.cfg d.σ i
+      ({ d with σ := σ', quiet := d.quiet && quietStepB d.v d.σ (.step i) }, some (showPc σ' i))
     | none => (d, none)
   | ["seg", i] =>
     match i.toNat? with
     | some i =>
-      let (σ', moved) := seg d.v d.cfg d.σ i fuel
-      ({ d with σ := σ' }, some ((if moved then "" else "blocked:") ++ showPc σ' i))
+      let (σ', moved, q) := seg d.v d.cfg d.σ i d.quiet fuel
+      ({ d with σ := σ', quiet := q }, some ((if moved then "" else "blocked:") ++ showPc σ' i))
     | none => (d, none)
   | ["tick", n] =>
     match n.toNat? with
     | some n => ({ d with σ := act d.v d.cfg d.σ (.tick n) }, some "ok")
     | none => (d, none)
   | ["gc"] => ({ d with σ := act d.v d.cfg d.σ .gc }, some "ok")
+  | ["quiet"] => (d, some (if d.quiet then "1" else "0"))
   | ["dump"] =>
     let f := match d.σ.main with | some s => showAccts (sortAccts s) | none => "absent"
     let t := match d.σ.temp with | some _ => "temp" | none => "notemp"
